@@ -52,6 +52,7 @@ type TxBuilder struct {
 	UsedEnds  map[uint64]bool // shared across the run
 	Strict    bool            // generator self-check: a rejected transaction is harness trouble
 	Rejected  int
+	marks     map[string]bool
 }
 
 // NewTxBuilder returns a builder for transactions on top of l.
@@ -873,3 +874,14 @@ func (b *TxBuilder) CommitV2(kind string, txn types.V2Transaction) bool { return
 
 // MarkUsed makes the builder consider a confirmed siacoin element as spent.
 func (b *TxBuilder) MarkUsed(id types.SiacoinOutputID) { b.usedSC[id] = true }
+
+// Mark / Probed let callers remember per-builder facts.
+func (b *TxBuilder) Mark(name string) {
+	if b.marks == nil {
+		b.marks = map[string]bool{}
+	}
+	b.marks[name] = true
+}
+
+// Probed reports whether Mark(name) was called.
+func (b *TxBuilder) Probed(name string) bool { return b.marks[name] }
